@@ -246,3 +246,41 @@ func shortFn(fn *ssa.Function) string {
 	}
 	return s
 }
+
+// callsDataRead returns the call of the DATA-read role function in fn, if any.
+func (m *smtpModel) callsDataRead(fn *ssa.Function) *ssa.Call {
+	var gcall *ssa.Call
+	eng.EachInstr(fn, func(in ssa.Instruction) {
+		if call, ok := in.(*ssa.Call); ok && eng.StaticCallee(call.Common()) == m.dataRead {
+			gcall = call
+		}
+	})
+	return gcall
+}
+
+// liftToDataReader maps a Deliver call site to the site that stands for it in the function
+// that reads the DATA block: the site itself when its function reads the block, otherwise the
+// single static call of the enclosing helper (repeatedly, bounded), as produced by extracting
+// the delivery into a method of its own. ok=false: no such chain.
+func (m *smtpModel) liftToDataReader(p *eng.Prog, site ssa.CallInstruction) (ssa.CallInstruction, *ssa.Call, bool) {
+	cur := site
+	for depth := 0; depth < 4; depth++ {
+		F := cur.Parent()
+		if g := m.callsDataRead(F); g != nil {
+			return cur, g, true
+		}
+		if F.Parent() != nil {
+			return nil, nil, false
+		}
+		sites := p.StaticCallSites(F)
+		if len(sites) != 1 {
+			return nil, nil, false
+		}
+		ci := sites[0].Instr
+		if _, isGo := ci.(*ssa.Go); isGo {
+			return nil, nil, false
+		}
+		cur = ci
+	}
+	return nil, nil, false
+}
